@@ -217,7 +217,91 @@ def check_C14(tier, seed):
     return res.finish()
 
 
-CHECKS = {"C01": check_C01, "C02": check_C02, "C16": check_C16, "C03": check_C03, "C12": check_C12, "C13": check_C13,
+def run_mc_sharded(res, module, base_consts, shard_key, shards, vec_out, workers_each, timeout=3000, tag=None):
+    """Run several TLC instances of the same model with different values of one constant (parallel JVMs)."""
+    import threading
+    infos, errs = [None] * len(shards), []
+    def one(i, val):
+        try:
+            c = dict(base_consts); c[shard_key] = val
+            infos[i] = run_mc(module, c, workers=workers_each, vec_out=f"{vec_out}.{i}", timeout=timeout, tag=f"{tag or module}-{i}", xmx="3g")
+        except Exception as e:   # noqa
+            errs.append(e)
+    ths = [threading.Thread(target=one, args=(i, v)) for i, v in enumerate(shards)]
+    [t.start() for t in ths]; [t.join() for t in ths]
+    if errs:
+        raise errs[0]
+    with open(vec_out, "w") as out:
+        for i in range(len(shards)):
+            p = f"{vec_out}.{i}"
+            if os.path.exists(p):
+                out.write(open(p).read()); os.remove(p)
+    for inf in infos:
+        res.add_mc(inf)
+
+
+ALL_DAY_IDS = list(range(1, 1152))
+STRUCT_DAY_IDS = [1, 2, 31, 32, 59, 60, 61, 90, 365, 366, 367, 424, 425, 426, 731,          # J1 J59 J60.. ; 0 1 58 59 60 365
+                  732, 766, 767, 795, 801, 802, 830, 836, 1011, 1046, 1116, 1117, 1145, 1151]  # M1.1.0 M1.5.6 M2.1.0 M2.5.0 M3.* M9/M10 M11.5.6 M12.*
+
+
+def group_by_zone(raw, out, ops=None):
+    groups, order = {}, []
+    for l in open(raw):
+        v = json.loads(l)
+        if ops and v["op"] not in ops:
+            continue
+        zk = json.dumps(v.pop("zk"), sort_keys=True)
+        if zk not in groups:
+            groups[zk] = []; order.append(zk)
+        groups[zk].append(v)
+    with open(out, "w") as f:
+        for zk in order:
+            f.write(json.dumps({"op": "zone", "a": json.loads(zk), "g": 1}, separators=(",", ":")) + "\n")
+            for v in groups[zk]:
+                f.write(json.dumps(v, separators=(",", ":")) + "\n")
+
+
+def check_C04(tier, seed):
+    res = Result("C04", tier, seed, "model_checking")
+    binary = need_binary(res)
+    rng = random.Random(seed * 7919 + 4)
+    q = tier == "quick"
+    days = sorted(set(rng.sample(STRUCT_DAY_IDS, 6 if q else 20) + rng.sample(ALL_DAY_IDS, 3 if q else 16)))
+    years = sorted(set(rng.sample([0, 3, 4, 99, 100, 399], 2 if q else 6) + rng.sample(range(400), 2 if q else 30)))
+    raw = os.path.join(C.OUT, "C04-vectors-raw.ndjson")
+    consts = dict(DayIds=tla_set(days), TimeIdx=tla_set(rng.sample(range(1, 11), 3 if q else 6)), OffIdx=tla_set(rng.sample(range(1, 8), 3 if q else 5)),
+                  Years=tla_set(years), EmitVec="TRUE", Cycle=rng.choice([4, 5, 5, 6, -1]))
+    res.add_mc(run_mc("MC_Rule", consts, workers=C.NCPU, vec_out=raw, timeout=6000, xmx="12g"))
+    vec = os.path.join(C.OUT, "C04-zonevec.ndjson")
+    group_by_zone(raw, vec); os.remove(raw)
+    run_pipeline(res, binary, "vec", vec_path=vec, validate=True, nshards=16)
+    os.remove(vec)
+    run_pipeline(res, binary, "rules", gen_lines=gens.gen_c04(rng, 400 if q else 8000), nshards=12 if q else 16)
+    res.notes["rule"] = "vectors: family of accepted rules (day-notation representatives x times x offset pairs) probed at S(y)-1, S(y), E(y)-1, E(y), New Year +-1 for sampled years of a cycle; events: corpus-shaped and seeded random accepted rules (all nine notation pairs, near-coincident days, |time| up to 7 days, offsets over the whole window) probed at S/E(y-1..y+1) +-1 s, New Year +-1 s/h/d, the year guard"
+    return res.finish()
+
+
+def check_C11(tier, seed):
+    res = Result("C11", tier, seed, "model_checking")
+    binary = need_binary(res)
+    rng = random.Random(seed * 7919 + 11)
+    q = tier == "quick"
+    raw = os.path.join(C.OUT, "C11-vectors-raw.ndjson")
+    starts = sorted(set(rng.sample(STRUCT_DAY_IDS, 10 if q else 29) + rng.sample(ALL_DAY_IDS, 14 if q else 100)))
+    ends = sorted(set(STRUCT_DAY_IDS + rng.sample(ALL_DAY_IDS, 30 if q else 200)))
+    # literal 400-year definition on a sub-sample, derived decision on all selected pairs
+    res.add_mc(run_mc("MC_Cons", dict(StartIds=tla_set(rng.sample(starts, 4)), EndIds=tla_set(rng.sample(ends, 12)), EmitVec="FALSE", Literal="TRUE"), workers=C.NCPU, tag="C11-literal", timeout=3000))
+    res.add_mc(run_mc("MC_Cons", dict(StartIds=tla_set(starts), EndIds=tla_set(ends), EmitVec="TRUE", Literal="FALSE"), workers=C.NCPU, vec_out=raw, timeout=6000, xmx="12g"))
+    run_pipeline(res, binary, "vec", vec_path=raw, validate=False)
+    os.remove(raw)
+    run_pipeline(res, binary, "rules", gen_lines=gens.gen_c11(rng, 6000 if q else 100000), nshards=12 if q else 16)
+    res.notes["rule"] = "vectors: for each selected ordered pair of day notations, the constructor is called at every decision breakpoint k*86400 + {-1,0,1} of d (several time/offset splits incl. window edges); events: seeded rules (80% with start/end days within 20 days), window-edge offsets and times, invalid rule days"
+    res.notes["pairs_selected"] = len(starts) * len(ends)
+    return res.finish()
+
+
+CHECKS = {"C04": check_C04, "C11": check_C11, "C01": check_C01, "C02": check_C02, "C16": check_C16, "C03": check_C03, "C12": check_C12, "C13": check_C13,
           "C05": lambda t, s: check_find("C05", t, s), "C06": lambda t, s: check_find("C06", t, s), "C17": lambda t, s: check_find("C17", t, s),
           "C14": check_C14}
 
